@@ -117,7 +117,7 @@ class Session:
         from ..fdeval import module_resolver
         fd = FD(max_steps=100000, resolver=module_resolver(self.sym, self.mod))
         fd.calls['FeedbackSourceSection'] = lambda n, **k: ('group', n)
-        fd.calls['Substitution'] = lambda code, filename=None: Obj('substitution', code=code, filename=filename)
+        # (Substitution is pedal's own small class: constructed and used as it is, helper methods included)
         fd.calls['not_enough_sections'] = lambda *a, **kw: self.log.append(('not_enough_sections',) + a)
 
         def re_split(pattern, string, maxsplit=0, flags=0):
@@ -341,10 +341,7 @@ def sandbox_capture_rule(ctx, sym, rule):
         rec = symexec.Recorder()
         offsets = symexec.marker('line_offsets')
         line_no = symexec.marker('traceback.line_number')
-        submission = Obj('submission', instructor_file='on_run.py', line_offsets=offsets, main_file='answer.py',
-                         files={'answer.py': 'x = 1\n'})
-        symexec.method(submission, 'get_files_lines', lambda: {'answer.py': ['x = 1', '']})
-        symexec.method(submission, 'get_lines', lambda: ['x = 1', ''])
+        submission = symexec.model_submission(ctx, 'x = 1\n', instructor_file='on_run.py', line_offsets=offsets)
         report = Obj('report', submission=submission)
         me = symexec.self_obj(sb, 'Sandbox', report=report, full_traceback=False, exception=None, feedback=None)
         symexec.method(me, 'get_context', rec.stub('get_context', ret=Obj('context')))
